@@ -1964,6 +1964,7 @@ class World:
             if b is not None and b.size and np.shares_memory(b, a):
                 self.grad_poisoned = True  # (guard off) an operand of a recorded op was overwritten
         # ... or memory of a tensor the caller no longer holds but a live op still does
+        self.discover()
         for rec in self.oprecs.values():
             if rec.ref() is None:
                 continue
